@@ -1,4 +1,5 @@
 import HdVerif.Proofs.SRReport
+import HdVerif.Generated.T16d
 /-! # C16  Measurement-report queries return exactly the matching groups
 
 Property theorems only.  Model: `Model/SRReport.lean`.  The kind classification by content counting
@@ -71,6 +72,21 @@ theorem query_sound_complete (k : Kind) (ps : List Params) (f : Filters)
 theorem refused_arguments_refuse_query (k : Kind) (gs : List Group) (f : Filters) (e : ErrKind) (h : argCheck k f = .error e) :
     query k gs f = .error e := by
   simp [query, h]
+
+/-- The per-item tests of the model's filter predicates are the tests of the `_contains_*_items` helpers as they stand in the
+source now (`Gen.*ItemMatches`, regenerated every run from the bodies of their `for item in matched_items` loops):
+a referenced class/instance pair matches an item iff every UID that is given equals the item's; a code / UID value
+matches iff it equals the item's (the queries always pass a value). -/
+theorem filter_item_tests_are_source_tests (r : Ref) (cls inst : Option String) (v itemValue : String) :
+    Gen.imageItemMatches cls.isSome (cls == some r.cls) inst.isSome (inst == some r.inst) = .ok (refMatches (some r) cls inst) ∧
+    Gen.codeItemMatches true (itemValue == v) = .ok (itemValue == v) ∧
+    Gen.uidrefItemMatches true (itemValue == v) = .ok (itemValue == v) := by
+  refine ⟨?_, ?_, ?_⟩
+  · unfold Gen.imageItemMatches refMatches
+    cases cls <;> cases inst <;> simp
+    all_goals grind
+  · unfold Gen.codeItemMatches; cases (itemValue == v) <;> rfl
+  · unfold Gen.uidrefItemMatches; cases (itemValue == v) <;> rfl
 
 /-! ## kinds -/
 
